@@ -505,26 +505,38 @@ def zOp (v : Nat) (c : GQ) : Op := [([(v, 3)], c)]
 section bct
 variable (tol : Rat)
 
+/-- one iteration of the loop of `dissolve`: `prod *= QubitOperator((), 0.5) - QubitOperator('Z{var}', 0.5)` -/
+def dissolveStep (acc : QV) (f : Fac) : Except Err QV :=
+  match f with
+  | none => .error Err.valueError
+  | some v => .ok (acc.mul (.op (isub tol [([], half)] (zOp v half))))
+
+/-- the last line of `dissolve`: `QubitOperator((), 1.0) - prod` -/
+def dissolveFinish (prod : QV) : Op :=
+  match prod with
+  | .num c => addConst [([], 1)] (-c)
+  | .op o => isub tol [([], 1)] o
+
 /-- `dissolve(term)` -/
 def dissolve (term : Mono) : Except Err Op := do
-  let prod ← term.foldlM (fun (acc : QV) f =>
-    match f with
-    | none => .error Err.valueError
-    | some v => .ok (acc.mul (.op (isub tol [([], half)] (zOp v half))))) (QV.num ⟨2, 0⟩)
-  match prod with
-  | .num c => pure (addConst [([], 1)] (-c))
-  | .op o => pure (isub tol [([], 1)] o)
+  let prod ← term.foldlM (dissolveStep tol) (QV.num ⟨2, 0⟩)
+  pure (dissolveFinish tol prod)
+
+/-- the multiplier `extractor` computes for one term of the polynomial -/
+def extractorTerm (term : Mono) : Except Err QV :=
+  match term with
+  | [some v] => pure (QV.op (zOp v 1))
+  | [none] => pure (QV.num (-1))
+  | [] => pure (QV.num 1)
+  | _ => do pure (QV.op (← dissolve tol term))
+
+/-- one iteration of the loop of `extractor`: `return_fn *= multiplier` -/
+def extractorStep (acc : QV) (term : Mono) : Except Err QV := do
+  let m ← extractorTerm tol term
+  pure (acc.mul m)
 
 /-- `extractor(binary_op)` -/
-def extractor (p : Poly) : Except Err QV :=
-  p.foldlM (fun (acc : QV) term => do
-    let m : QV ←
-      match term with
-      | [some v] => pure (QV.op (zOp v 1))
-      | [none] => pure (QV.num (-1))
-      | [] => pure (QV.num 1)
-      | _ => do pure (QV.op (← dissolve tol term))
-    pure (acc.mul m)) (QV.num 1)
+def extractor (p : Poly) : Except Err QV := p.foldlM (extractorStep tol) (QV.num 1)
 
 /-- `make_parity_list(code)` -/
 def makeParityList (c : Code) : List Poly :=
